@@ -295,6 +295,17 @@ def main(argv: List[str]) -> int:
         else:
             rep.violation({k: it[k] for k in it if k != 'tid'}, {'failing_clause': v, 'source': extra[x['tid']].get('_src'),
                                                                  'stored': ''.join(x['stored']), 'error': extra[x['tid']].get('_err')})
+    combos = {}
+    for x in recs:
+        if verdicts[x['tid']] != 'out-of-domain':
+            it = items[x['tid']]
+            k = '%s/%s/%s' % (it['site'], it['route'], it['style'])
+            combos[k] = combos.get(k, 0) + 1
+    rep.notes['judged_by_site_route_style'] = dict(sorted(combos.items()))
+    want = ['%s/authored/%s' % (s, st) for s in SITES for st in STYLES] + ['%s/rendered/none' % s for s in SITES] + ['%s/sql/none' % s for s in SQL_SITES]
+    never = [k for k in want if not combos.get(k)]
+    if never:
+        raise core.Machinery('C13: site/route/style combinations never judged: %s' % never)
     rep.notes['texts'] = len(texts)
     rep.notes['max_len'] = maxlen
     rep.notes['out_of_domain_skipped'] = ood
